@@ -114,7 +114,8 @@ type Case struct {
 	HasVals bool    `json:"has_vals"`
 	Vals    []Hex   `json:"vals,omitempty"` // payloads, interpreted by Enc
 	Opt     OptSpec `json:"opt"`
-	Load    string  `json:"load,omitempty"` // "", "reload", "proto", or a legacy layout name
+	Load    string  `json:"load,omitempty"` // "", "reload", "proto", "over", or a legacy layout name
+	Over    bool    `json:"over,omitempty"` // loads go into an instance that holds another trie and was used
 
 	Extra []Hex `json:"extra,omitempty"` // drawn extra queries
 	Win   int   `json:"win,omitempty"`   // start of the mutation window in Keys
@@ -558,6 +559,15 @@ func (c *Case) build() (*trie.SlimTrie, error) {
 	return trie.NewSlimTrie(c.spec().enc, c.keys(), c.typedValues(), c.Opt.opt())
 }
 
+// loadTarget is the instance a stream is loaded into: a new empty trie, or
+// (c.Over) an instance that holds another trie and whose read APIs were used.
+func loadTarget(c *Case) *trie.SlimTrie {
+	if c.Over {
+		return usedInstance(c)
+	}
+	return emptyTrie(c)
+}
+
 func emptyTrie(c *Case) *trie.SlimTrie {
 	st, err := trie.NewSlimTrie(c.spec().enc, nil, nil)
 	if err != nil {
@@ -597,7 +607,7 @@ func (c *Case) loadFrom(fresh *trie.SlimTrie) (st *trie.SlimTrie, err error) {
 			if e != nil {
 				return viol("marshal", "Marshal failed: %v", e)
 			}
-			st = emptyTrie(c)
+			st = loadTarget(c)
 			if e := st.Unmarshal(b); e != nil {
 				return viol("unmarshal", "Unmarshal of own bytes failed: %v", e)
 			}
@@ -624,7 +634,7 @@ func (c *Case) loadFrom(fresh *trie.SlimTrie) (st *trie.SlimTrie, err error) {
 			if e != nil {
 				return viol("marshal", "proto.Marshal failed: %v", e)
 			}
-			st = emptyTrie(c)
+			st = loadTarget(c)
 			if e := proto.Unmarshal(b, st); e != nil {
 				return viol("unmarshal", "proto.Unmarshal of own bytes failed: %v", e)
 			}
@@ -639,7 +649,7 @@ func (c *Case) loadFrom(fresh *trie.SlimTrie) (st *trie.SlimTrie, err error) {
 		return nil, e
 	}
 	err = guard("Unmarshal of a legacy stream", func() error {
-		st = emptyTrie(c)
+		st = loadTarget(c)
 		if e := st.Unmarshal(b); e != nil {
 			return viol("unmarshal", "Unmarshal of %s stream failed: %v", c.Load, e)
 		}
